@@ -2,9 +2,14 @@
 
 Invariants are checked on every error, transitively through `context`.
 """
+import copy
+from urllib.parse import urljoin
+
+from jsonschema import RefResolver, exceptions
+
 from mc.enum import jsonvals
 from mc.props import _e1
-from mc.ref import pointer, spec
+from mc.ref import pointer, resolver as refmodel, spec
 
 ID = "C06"
 LEVEL = "exploration"
@@ -28,7 +33,7 @@ def local_hop(root):
     return hop
 
 
-def walk_schema(root, path, hop, base=""):
+def walk_schema(root, path, hop, base="", id_of=None):
     """Follow an absolute schema path from the root schema, hopping through a
     reference exactly where the node reached is a reference object.
     Returns (last schema node, value reached, under_property_names)."""
@@ -36,9 +41,17 @@ def walk_schema(root, path, hop, base=""):
     path = list(path)
     i, n = 0, len(path)
     keymode = False
+    first = True
     while True:
         hops = 0
-        while isinstance(node, dict) and "$ref" in node:
+        while True:
+            if id_of is not None and isinstance(node, dict) and not first:
+                nid = id_of(node)
+                if nid:
+                    base = urljoin(base, nid)
+            first = False
+            if not (isinstance(node, dict) and "$ref" in node):
+                break
             node, base = hop(node, base)
             hops += 1
             if hops > 20:
@@ -96,7 +109,7 @@ def render_json_path(path):
     return out
 
 
-def check_error(d, root, X, e, hop, problems, depth=0):
+def check_error(d, root, X, e, hop, problems, depth=0, base="", id_of=None):
     ap, asp = list(e.absolute_path), list(e.absolute_schema_path)
     is_d3_required = (d == 3 and e.validator == "required" and len(asp) >= 3 and asp[-1] == "required"
                       and asp[-3] == "properties")
@@ -117,7 +130,7 @@ def check_error(d, root, X, e, hop, problems, depth=0):
         problems.append("json_path raised %s" % type(ex).__name__)
     # schema side
     try:
-        last, value, keymode = walk_schema(root, asp, hop)
+        last, value, keymode = walk_schema(root, asp, hop, base, id_of)
     except Walk as w:
         problems.append("schema path %r not walkable: %s" % (asp, w))
         last, value, keymode = None, None, False
@@ -178,7 +191,7 @@ def check_error(d, root, X, e, hop, problems, depth=0):
                 pass
     if depth < 6:
         for c in e.context:
-            check_error(d, root, X, c, hop, problems, depth + 1)
+            check_error(d, root, X, c, hop, problems, depth + 1, base, id_of)
 
 
 def check_case(d, S, X, v=None, hop=None, with_reference=True):
@@ -206,6 +219,35 @@ def check_case(d, S, X, v=None, hop=None, with_reference=True):
     return nerr, problems
 
 
+def check_ref_case(d, S, docs, X, split):
+    """C02's placements: schema paths are walked hopping through references with the designation model."""
+    cls = _e1.CLS[d]
+    world = refmodel.World(d, S, docs)
+    store, served = {}, {}
+    for i, (k, v) in enumerate(sorted(docs.items())):
+        (served if (split and i % 2 == 0) else store)[k] = copy.deepcopy(v)
+    r = RefResolver.from_schema(S, id_of=cls.ID_OF, store=store,
+                                handlers={"http": lambda uri: copy.deepcopy(served[uri])})
+    try:
+        errors = list(cls(S, resolver=r).iter_errors(X))
+    except exceptions.RefResolutionError:
+        return 0, []          # C02's business
+    except Exception as e:
+        return 0, ["crash %s" % type(e).__name__]
+
+    def hop(node, base):
+        try:
+            return world.hop(node, base)
+        except refmodel.Unresolvable as u:
+            raise Walk("reference does not resolve in the model: %s" % u)
+    problems = []
+    n = 0
+    for e in errors:
+        check_error(d, S, X, e, hop, problems, 0, world.base0, world.id_of)
+        n += 1 + _count_ctx(e)
+    return n, problems
+
+
 def _count_ctx(e):
     return sum(1 + _count_ctx(c) for c in e.context)
 
@@ -217,9 +259,16 @@ def get_ud():
 
 def plan(ctx):
     units, sizes = _e1.make_units(ctx)
+    from mc.props import c02
+    for d in _e1.DRAFTS:
+        for fam in ("two-slot", "nested-id", "recursive"):
+            n = 8 if fam == "two-slot" else 1
+            units += [(d, "ref:" + fam, i, n) for i in range(n)]
     return {
         "units": units,
-        "rule": ("G(draft) (singles, all ordered pairs, sibling groups, nested) x U_d (instances with pairwise "
+        "rule": ("C02's reference placements (two-slot skeletons, ids on the evaluation path, recursion; schema paths "
+                 "walked by hopping through references with the designation model) and "
+                 "G(draft) (singles, all ordered pairs, sibling groups, nested) x U_d (instances with pairwise "
                  "distinct leaves, plus one instance per JSON type); every error and every context error "
                  "(transitively) is checked against the path/keyword/value/parent/json_path invariants, the "
                  "top-level location multiset against the reference evaluator, and the context of anyOf/oneOf/"
@@ -236,7 +285,39 @@ def fails(d, S, X):
     return bool(check_case(d, S, X)[1])
 
 
+def run_ref_unit(unit, ctx):
+    from mc.props import c02
+    d, fam, shard, n = unit[0], unit[1][4:], unit[2], unit[3]
+    gen, inst = c02.FAMILIES[fam]
+    ev = nt = nerrs = 0
+    viol, samples = [], []
+    for i, (label, S, docs) in enumerate(gen(d, ctx.tier)):
+        if i % n != shard or not _e1.accepted(d, S):
+            continue
+        for X in (inst if (ctx.thorough or fam != "two-slot") else inst[::2]):
+            for split in ((False, True) if docs else (False,)):
+                if split and not ctx.thorough and fam == "two-slot":
+                    continue
+                ev += 1
+                k, problems = check_ref_case(d, S, docs, X, split)
+                if k:
+                    nt += 1
+                    nerrs += k
+                if problems:
+                    sig = "C06|ref|%s" % problems[0][:40].split("%")[0].split("[")[0].split("'")[0].strip()
+                    viol.append({"signature": sig, "size": len(str(S)) + len(str(X)),
+                                 "case": {"draft": d, "label": label, "schema": S, "docs": docs, "instance": X,
+                                          "handler_served": split},
+                                 "detail": {"problems": problems[:6]}})
+        if len(samples) < 1 and i % 301 == 7:
+            samples.append({"draft": d, "label": label, "schema": S, "docs": docs})
+    return {"evaluations": ev, "nontrivial": nt, "violations": viol, "samples": samples, "outcomes": {},
+            "counters": {"ref_cases": ev, "errors_checked_incl_context": nerrs}}
+
+
 def run_unit(unit, ctx):
+    if isinstance(unit[1], str) and unit[1].startswith("ref:"):
+        return run_ref_unit(unit, ctx)
     d = unit[0]
     U = get_ud() if ctx.tier == "quick" or unit[1] == "pairs" else get_ud() + _e1.get_universe("quick")
     ev = nt = nerrs = nschemas = nctx = 0
@@ -267,5 +348,9 @@ def run_unit(unit, ctx):
 
 
 def replay(case, ctx):
+    if "docs" in case:
+        n, problems = check_ref_case(case["draft"], case["schema"], case["docs"], case["instance"],
+                                     case.get("handler_served"))
+        return {"reproduced": bool(problems), "errors": n, "problems": problems}
     n, problems = check_case(case["draft"], case["schema"], case["instance"])
     return {"reproduced": bool(problems), "errors": n, "problems": problems}
